@@ -25,7 +25,7 @@ import copy
 import core
 
 LEVEL = "proof"
-EXTRA_TARGETS = ["model/RArgsTie.vo", "model/RArgsValTie.vo", "model/RArgsSubTie.vo"]
+EXTRA_TARGETS = ["model/RArgsTie.vo", "model/RArgsValTie.vo", "model/RArgsSubTie.vo", "model/RArgsInternTie.vo"]
 
 HEADER = ("From Coq Require Import List ZArith.\nImport ListNotations.\n"
           "From TI Require Import model.RArgs model.RArgsTie.\nOpen Scope nat_scope.\n")
@@ -1087,6 +1087,67 @@ def nssub_term(c, r):
             f"sc_ops := {core.coq_list(c['ops'], sop_term)}; sc_init := {init}; sc_obs := {core.coq_list(obs)} |}}")
 
 
+# ------------------------------------------------------------------ interleaved first requests
+# (type "intern"; model/RArgsIntern.v, judged by RArgsInternTie.icheck).  A case: a chain of
+# 1-3 render classes ("ns": which of them own a namespace), the kind of the request that is
+# parked ("req0") and of the complete request made in that window ("req1"; 0 RenderArgs(cls),
+# 1 RenderArgs(cls, None), 2 RenderArgs(cls, RenderArgs(parent)), 3 cls(...).render() with no
+# render arguments), and "k": the line event of the parked request at which it is parked
+# ("all": every position; the driver counts them first).  Every position runs on a fresh chain.
+IHEADER = ("From Coq Require Import List.\nImport ListNotations.\n"
+           "From TI Require Import model.RArgsIntern model.RArgsInternTie.\n")
+REQ_NAMES = ["RenderArgs(cls)", "RenderArgs(cls, None)", "RenderArgs(cls, RenderArgs(parent))", "cls(...).render()"]
+
+
+def intern_cases(quick, rng):
+    pats = [[True], [False], [True, True], [False, True], [True, False], [True, False, True], [False, False, False],
+            [True, True, True], [False, True, False], [False, False, True], [True, True, False]]
+    combos = [(r0, r1) for r0 in (0, 1, 2) for r1 in (0, 1, 2, 3)]
+    out = []
+    if quick:
+        # every hierarchy pattern once; the request pairs rotate with the seed so that all are met
+        off = rng.randrange(len(combos))
+        for j, ns in enumerate(pats):
+            r0, r1 = combos[(off + 5 * j) % len(combos)]
+            out.append({"type": "intern", "ns": ns, "req0": r0, "req1": r1, "k": "all"})
+        out.append({"type": "intern", "ns": [True, True], "req0": 0, "req1": 0, "k": "all"})
+    else:
+        for ns in pats:
+            for r0, r1 in combos:
+                out.append({"type": "intern", "ns": ns, "req0": r0, "req1": r1, "k": "all"})
+    for c in out:
+        if c["req1"] == 3:
+            c["renderable"] = True
+    return out
+
+
+def onl_term(r):
+    return "None" if r is None else f"(Some {core.coq_list(r)})"
+
+
+def intern_terms(c, r):
+    d = [i for i, has in enumerate(c["ns"], 1) if has]
+    return [(o["k"], f"{{| ic_dflt := {core.coq_list(d)}; ic_pub := {b_(o['pub'])}; ic_built := {b_(o['built'])}; "
+                     f"ic_res := {core.coq_list(o['res'], onl_term)}; ic_same := {core.coq_list(o['same'], b_)}; "
+                     f"ic_eq := {b_(o['eq'])} |}}") for o in r["obs"]]
+
+
+def describe_intern(case, obs=None):
+    n = len(case["ns"])
+    chain = " <- ".join(["Renderable"] + [f"I{i}{'(Args)' if has else ''}" for i, has in enumerate(case["ns"], 1)])
+    t = (f"class chain {chain}; no default set of I{n} exists yet; thread 0 calls {REQ_NAMES[case['req0']].replace('cls', f'I{n}')} "
+         f"and is pre-empted before line event {case['k']} of that call"
+         + (f" ({obs['where']}; I{n} in _interned: {obs['pub']}; its object built: {obs['built']})" if obs else "")
+         + f"; the main thread then calls {REQ_NAMES[case['req1']].replace('cls', f'I{n}')} to completion; thread 0 resumes; "
+         f"then RenderArgs(I{n}) once more")
+    if obs:
+        def show(j):
+            return f"unusable ({obs['why'][j]})" if obs["res"][j] is None else f"holds defaults of classes {obs['res'][j]}"
+        t += (f".  Returned sets: thread 0 -> {show(0)}; main -> {show(1)}; afterwards -> {show(2)}; "
+              f"same object (0,1)/(0,2)/(1,2): {obs['same']}; all equal and hash equal: {obs['eq']}")
+    return t
+
+
 def evaluate(cases, tag="c16", want_diag=False):
     """Returns (codes, errors, impl results, diag strings)."""
     impl = core.run_impl_parallel("impl_c16.py", cases)
@@ -1096,6 +1157,17 @@ def evaluate(cases, tag="c16", want_diag=False):
     subs = [(i, nssub_term(c, r)) for i, (c, r) in enumerate(zip(cases, impl)) if c["type"] == "nssub"]
     codes = [0] * len(cases)
     errors = []
+    diags = {}
+    ints = [(i, k, t) for i, (c, r) in enumerate(zip(cases, impl)) if c["type"] == "intern" for k, t in intern_terms(c, r)]
+    if ints:
+        bad, errs = core.coq_shards(tag + "i", IHEADER, [t for _, _, t in ints], "icase", "ibad cases", shard=200)
+        errors += errs
+        for idx, code in bad:
+            i, k, _ = ints[idx]
+            diags.setdefault(i, []).append((k, code))
+        for i, l in diags.items():
+            # the case's code: that of its first position contradicting the rule, else 1
+            codes[i] = next((code for _, code in l if code >= 2), 1)
     if subs:
         bad, errs = core.coq_shards(tag + "u", SHEADER, [t for _, t in subs], "scase", "sbad cases", shard=16)
         errors += errs
@@ -1116,7 +1188,6 @@ def evaluate(cases, tag="c16", want_diag=False):
         errors += errs
         for idx, code in bad:
             codes[metas[idx][0]] = code
-    diags = {}
     if want_diag:
         failing = sorted((i for i, _ in progs + nsps + subs if codes[i]), key=lambda i: (codes[i] < 2, len(cases[i]["ops"])))[:6]
         terms = dict(progs + nsps + subs)
@@ -1459,6 +1530,8 @@ def describe_ns(case):
 
 
 def describe(case):
+    if case["type"] == "intern":
+        return describe_intern(case)
     if case["type"] == "nssub":
         return describe_sub(case)
     if case["type"] == "nsprog":
@@ -1519,6 +1592,7 @@ def run(ctx):
         cases += [gen_nsprog(nrng, 12 if i % 4 else 4) for i in range(nnp)]
         srng = random.Random(nrng.getrandbits(64) ^ 0x5B)
         cases += [gen_nssub(srng, 10 if i % 4 else 4) for i in range(120 if ctx.quick else 3000)]
+        cases += intern_cases(ctx.quick, random.Random(srng.getrandbits(64) ^ 0x1D))
     codes, errors, impl, diags = evaluate(cases, want_diag=True)
     hist = {"case_types": {}, "classes": {}, "ops_len": {}, "op_kinds": {}, "op_outcomes": {},
             "results_aliasing_an_existing_object": 0, "results_new_object": 0,
@@ -1541,12 +1615,17 @@ def run(ctx):
                        "known_field_given_its_current_value": 0,
                        "equal_instance_pairs": 0, "equal_instance_pairs_with_values_of_different_types": 0,
                        "instances_holding_a_nan_like_value": 0, "update_without_fields": 0},
+            "intern": {"scenarios": 0, "park_positions": 0, "positions_per_scenario": {}, "chain_depth": {},
+                       "namespace_owners_in_chain": {}, "parked_request/complete_request": {},
+                       "park_point_state(class in _interned, object built)": {}, "park_point_function": {},
+                       "same_object(0,1)/(0,2)/(1,2)": {}},
             "nssub": {"subclass_kinds": {}, "op_kinds": {}, "op_outcomes": {}, "ops_len": {},
                       "constructed_by_kind": {}, "copying_route_by_kind_of_operand_class": {},
                       "copies_made_by_update_by_kind": {}, "copies_of_copies": 0}}
     distinct = set()
     ndistinct = set()
     sdistinct = set()
+    idistinct = set()
 
     def bump(d, k):
         d[k] = d.get(k, 0) + 1
@@ -1684,6 +1763,21 @@ def run(ctx):
             # non-trivial: an update made a copy of an instance of a class with its OWN constructor
             if copied - {"plain", "plain-associated"}:
                 sdistinct.add(core.sig(c))
+        elif c["type"] == "intern":
+            ih = hist["intern"]
+            ih["scenarios"] += 1
+            ih["park_positions"] += len(r["obs"])
+            bump(ih["positions_per_scenario"], r["n"])
+            bump(ih["chain_depth"], len(c["ns"]))
+            bump(ih["namespace_owners_in_chain"], sum(c["ns"]))
+            bump(ih["parked_request/complete_request"], f"{REQ_NAMES[c['req0']]} / {REQ_NAMES[c['req1']]}")
+            for o in r["obs"]:
+                bump(ih["park_point_state(class in _interned, object built)"], f"{o['pub']},{o['built']}")
+                bump(ih["park_point_function"], o["where"].split(":")[0])
+                bump(ih["same_object(0,1)/(0,2)/(1,2)"], "".join("TF"[not x] for x in o["same"]))
+                # non-trivial: both requests built an object of their own (the window between allocation and publication)
+                if o["res"][0] is not None and o["res"][1] is not None and not o["same"][0]:
+                    idistinct.add(core.sig({**c, "k": o["k"]}))
         elif c["type"] == "stmt":
             bump(hist["stmt_outcomes"], r["code"])
         elif c["type"] == "ctor":
@@ -1697,6 +1791,18 @@ def run(ctx):
     for i in order[:6]:
         code = codes[i]
         c = cases[i]
+        if code >= 2 and c["type"] == "intern":
+            # smallest failing scenario of this kind: the first position contradicting the rule
+            k = c["k"] if c["k"] != "all" else next(k for k, cd in diags[i] if cd >= 2)
+            small = {**c, "k": k}
+            codes2, _, impl2, diags2 = evaluate([small], tag="c16r")
+            obs = impl2[0]["obs"][0] if impl2[0]["obs"] else None
+            failures.append({"signature": core.sig(canon(small)),
+                             "what": "interleaved requests for the shared default set of one class: a returned set is not the "
+                                     "complete default set (icheck code %d; %d position(s) of this scenario contradict the rule): %s"
+                                     % (codes2[0], sum(1 for _, cd in diags[i] if cd >= 2), describe_intern(small, obs)),
+                             "replay": {"case": small, "observed": impl2[0], "code": codes2[0]}})
+            continue
         if code >= 2:
             small = c
             if not failures and not ctx.replay:
@@ -1714,6 +1820,10 @@ def run(ctx):
             what += f"(failing step/sub-check: {diags2.get(0, '')}): {describe(small)}"
             failures.append({"signature": core.sig(canon(small)), "what": what,
                              "replay": {"case": small, "observed": impl2[0], "code": codes2[0]}})
+        elif c["type"] == "intern":
+            k0 = diags[i][0][0]
+            mismatches.append({"case": describe_intern({**c, "k": k0}, next((o for o in impl[i]["obs"] if o["k"] == k0), None)),
+                               "code": code, "diag": f"(position, code): {diags[i][:8]}", "observed": None})
         else:
             mismatches.append({"case": describe(c), "code": code, "diag": diags.get(i, ""),
                                "observed": impl[i] if c["type"] != "prog" else None})
@@ -1726,7 +1836,7 @@ def run(ctx):
                      "RArgsVal.nstep_op (heap of namespace instances) and RArgsVal.spec_nop (field-by-field rule) == real "
                      "ArgsNamespace constructor / update / RenderArgs.update / attribute reads over the value universe",
         "evaluations": len(cases),
-        "distinct_nontrivial": len(distinct) + len(ndistinct) + len(sdistinct),
+        "distinct_nontrivial": len(distinct) + len(ndistinct) + len(sdistinct) + len(idistinct),
         "rule": "corpus + generated programs: forest of 2-8 render classes (depth <= 4, branching <= 3, chains / bushy / random), "
                 "45-85% of classes with an Args namespace of 1-3 int fields and, in 60% of the forests with an inner class, a forced "
                 "GAP pattern A(args) <- B(no Args of its own) [<- C(args)]; 0-3 SUBCLASSES of every namespace class (child, "
@@ -1757,7 +1867,8 @@ def run(ctx):
         "histogram": hist,
         "extra": {"failing_cases_total": nfail, "nonzero_cases_total": len(order),
                   "distinct_nontrivial_set_programs": len(distinct), "distinct_nontrivial_namespace_programs": len(ndistinct),
-                  "distinct_nontrivial_subclass_constructor_programs": len(sdistinct)},
+                  "distinct_nontrivial_subclass_constructor_programs": len(sdistinct),
+                  "distinct_nontrivial_interleaved_request_positions": len(idistinct)},
         "mismatches": mismatches,
         "failures": failures,
         "errors": errors,
